@@ -378,7 +378,7 @@ func (inv *Invoice) validatePrecedingData(o *CorrectionOptions, cd *tax.Correcti
 	for _, k := range cd.Stamps {
 		var s *head.Stamp
 		for _, row := range o.Stamps {
-			if row.Provider == k {
+			if row != nil && row.Provider == k {
 				s = row
 				break
 			}
